@@ -48,7 +48,9 @@ def gen_file(rng, errors=0.0, engine="postgresql", sch=None, prefix="Q"):
     parts, kinds = [], []
     if rng.random() < 0.3:
         parts.append(rng.choice(["-- queries for the thing\n", "\n\n", "/* header */\n", "-- été ☃\n\n"]))
+    glue_next = False
     for i in range(k):
+        glued, glue_next = glue_next, (i < k - 1 and rng.random() < 0.08)
         bad = rng.random() < errors
         g = QGen(rng, sch, corrupt=(0.6 if bad and rng.random() < 0.6 else 0.0))
         sql, kind = g.statement()
@@ -60,6 +62,8 @@ def gen_file(rng, errors=0.0, engine="postgresql", sch=None, prefix="Q"):
             call = rng.choice(["nosuchfn(%d)" % rng.randint(1, 99), "nosuchfn(%s)" % c0, "lower(%s, %d)" % (c0, rng.randint(1, 9)), "random(%d)" % rng.randint(1, 99)])
             sql, kind = rng.choice(["SELECT %s, %s FROM %s" % (c0, call, t), "SELECT %s FROM %s WHERE %s = %s" % (c0, t, c0, call),
                                     "SELECT %s FROM %s WHERE %s IS NOT NULL AND %s > 0" % (c0, t, c0, call)]), "select"
+        if rng.random() < 0.04:
+            sql, kind = "TABLE %s" % rng.choice(list(sch.tables) + ["nosuch"]), "select"      # shorthand for SELECT * FROM t
         cmd = rng.choice([":one", ":many", ":exec", ":execrows"]) if kind not in ("select", "cte") else rng.choice([":one", ":many"])
         if bad and rng.random() < 0.3 and kind in ("insert", "update", "delete"):
             sql = sql.split(" RETURNING")[0]
@@ -72,14 +76,23 @@ def gen_file(rng, errors=0.0, engine="postgresql", sch=None, prefix="Q"):
             ann = rng.choice(["-- name: %s" % name, "-- name: %s :wat" % name, "-- name: 9x %s" % cmd, "-- name: %s %s extra" % (name, cmd)])
         pre = "".join(rng.choice(["", "", "\n", "\n\n", "  \n"]) for _ in range(2))
         doc_before = "".join("-- %s\n" % rng.choice(["doc line", "café", "returns $1", "TODO: *"]) for _ in range(rng.choice([0, 0, 1])))
+        if glued:
+            # the annotation stands on the line of the previous statement's semicolon: `...; -- name: X :cmd`
+            pre, doc_before = " ", ""
+            if ann.startswith("/*"):
+                ann = "-- name: %s %s" % (name, cmd)
         doc_after = "".join("--%s\n" % rng.choice([" explains", "x", " uses @x and $2", ""]) for _ in range(rng.choice([0, 0, 1, 2])))
         body = relayout(rng, sql)
-        parts.append("%s%s%s\n%s%s;%s" % (pre, doc_before, ann, doc_after, body, rng.choice(["\n", "\n\n", " -- done\n", "\n"])))
+        parts.append("%s%s%s\n%s%s;%s" % (pre, doc_before, ann, doc_after, body, "" if glue_next else rng.choice(["\n", "\n\n", " -- done\n", "\n"])))
         kinds.append(kind)
     src = "".join(parts)
     if rng.random() < 0.1:
         src = src.rstrip("\n")
-    return {"schema": sch.sql, "queries": src, "kind": "file:%d" % k, "style": "layout"}
+    style = "layout"
+    if rng.random() < 0.06 and "\r" not in src:
+        src = src.replace("\n", "\r\n")        # a file saved with Windows line endings
+        style = "layout+crlf"
+    return {"schema": sch.sql, "queries": src, "kind": "file:%d" % k, "style": style}
 
 
 def impl_args(r):
